@@ -580,7 +580,7 @@ impl CompactThetaSketch {
             1 => Self::deserialize_v1(cursor, seed),
             2 => Self::deserialize_v2(pre_longs, cursor, seed),
             3 => Self::deserialize_v3(pre_longs, cursor, seed),
-            4 => Self::deserialize_v4(pre_longs, cursor, seed),
+            4 => Self::deserialize_v4(pre_longs, cursor, seed, bytes.len()),
             _ => Err(Error::deserial(format!(
                 "unsupported serial version: expected 1, 2, 3, or 4, got {ser_ver}",
             ))),
@@ -592,7 +592,11 @@ impl CompactThetaSketch {
         num_entries: usize,
         theta: u64,
     ) -> Result<Vec<u64>, Error> {
-        let mut entries = Vec::with_capacity(num_entries);
+        if theta == 0 || theta > MAX_THETA {
+            return Err(Error::deserial("corrupted: theta out of range"));
+        }
+        // the count comes from the image: let the vector grow with the data actually present
+        let mut entries = Vec::new();
         for _ in 0..num_entries {
             let hash = cursor.read_u64_le().map_err(insufficient_data("entries"))?;
             if hash == 0 || hash >= theta {
@@ -601,6 +605,18 @@ impl CompactThetaSketch {
             entries.push(hash);
         }
         Ok(entries)
+    }
+
+    /// An image that claims to be ordered must hold strictly ascending hashes (the compressed
+    /// form and set operations rely on it).
+    fn ensure_ascending(entries: &[u64]) -> Result<(), Error> {
+        if entries.windows(2).all(|w| w[0] < w[1]) {
+            Ok(())
+        } else {
+            Err(Error::deserial(
+                "corrupted: ordered sketch with unordered or duplicate entries",
+            ))
+        }
     }
 
     fn deserialize_v1(mut cursor: SketchSlice<'_>, expected_seed: u64) -> Result<Self, Error> {
@@ -631,6 +647,7 @@ impl CompactThetaSketch {
         }
 
         let entries = Self::read_entries(&mut cursor, num_entries, theta)?;
+        Self::ensure_ascending(&entries)?;
 
         Ok(Self {
             entries,
@@ -677,6 +694,7 @@ impl CompactThetaSketch {
                     .read_u32_le()
                     .map_err(insufficient_data("<unused_u32>"))?;
                 let entries = Self::read_entries(&mut cursor, num_entries, MAX_THETA)?;
+                Self::ensure_ascending(&entries)?;
                 Ok(Self {
                     entries,
                     theta: MAX_THETA,
@@ -698,6 +716,7 @@ impl CompactThetaSketch {
                     .map_err(insufficient_data("theta_long"))?;
                 let empty = (num_entries == 0) && (theta == MAX_THETA);
                 let entries = Self::read_entries(&mut cursor, num_entries, theta)?;
+                Self::ensure_ascending(&entries)?;
                 Ok(Self {
                     entries,
                     theta,
@@ -752,6 +771,9 @@ impl CompactThetaSketch {
             entries = Self::read_entries(&mut cursor, num_entries as usize, theta)?;
         }
         let ordered = (flags & serialization::FLAGS_IS_ORDERED) != 0;
+        if ordered {
+            Self::ensure_ascending(&entries)?;
+        }
         Ok(Self {
             entries,
             theta,
@@ -765,6 +787,7 @@ impl CompactThetaSketch {
         pre_longs: u8,
         mut cursor: SketchSlice<'_>,
         expected_seed: u64,
+        image_len: usize,
     ) -> Result<Self, Error> {
         let entry_bits = cursor.read_u8().map_err(insufficient_data("entry_bits"))?;
         let num_entries_bytes = cursor.read_u8().map_err(insufficient_data("num_entries"))?;
@@ -789,6 +812,15 @@ impl CompactThetaSketch {
             MAX_THETA
         };
 
+        if theta == 0 || theta > MAX_THETA {
+            return Err(Error::deserial("corrupted: theta out of range"));
+        }
+        if num_entries_bytes > 4 || entry_bits > 63 {
+            return Err(Error::deserial(format!(
+                "corrupted: entry_bits {entry_bits}, num_entries_bytes {num_entries_bytes}"
+            )));
+        }
+
         // unpack num_entries
         let mut num_entries = 0usize;
         for i in 0..num_entries_bytes {
@@ -796,6 +828,15 @@ impl CompactThetaSketch {
                 .read_u8()
                 .map_err(insufficient_data("num_entries_byte"))?;
             num_entries |= (entry_count_byte as usize) << ((i as usize) << 3);
+        }
+
+        // every entry takes entry_bits bits of the image (no entry can be zero)
+        if entry_bits == 0 && num_entries > 0
+            || (num_entries as u128) * (entry_bits as u128) > (image_len as u128) * 8
+        {
+            return Err(Error::deserial(
+                "corrupted: entry count exceeds the data present",
+            ));
         }
 
         // unpack blocks of BLOCK_WIDTH deltas
@@ -827,9 +868,13 @@ impl CompactThetaSketch {
         }
 
         // undo deltas
-        let mut previous = 0;
+        let mut previous = 0u64;
         for e in &mut entries {
-            *e += previous;
+            *e = previous.saturating_add(*e);
+            if *e == previous && previous != 0 {
+                // a zero delta: duplicate entry
+                return Err(Error::deserial("corrupted: invalid retained hash value"));
+            }
             previous = *e;
             if *e == 0 || *e >= theta {
                 return Err(Error::deserial("corrupted: invalid retained hash value"));
